@@ -164,6 +164,13 @@ impl Searcher {
         // Mark that we've seen this state - this will help us avoid draws by repetition in winning states
         state_history.increment(game_state_hash);
 
+        // Nothing to search in a checkmate or stalemate position: there is no line to report
+        let max_depth = if MoveGenerator::compute_legal_moves(&game_state).is_empty() {
+            0
+        } else {
+            max_depth
+        };
+
         for depth in 0..max_depth {
             // Don't bother doing multiple threads if we're only searching a few moves
             // as the OS overhead will likely outweigh the benefits of parallelism
